@@ -8,7 +8,7 @@
 //verif:obligation C14.a getConnsToClose from an arbitrary manager state: up to 3 (thorough 4) tracked peers with symbolic tag value, temporary flag, first-seen instant, protection, 0..2 connections each (thorough: with symbolic direction and stream count), symbolic watermarks, grace period and clock: no connection of a protected peer or of a peer inside its grace period is selected; nothing is selected when the connection count is at or below the low watermark or the manager is disabled; a peer's connections are selected all or none; otherwise at most low-watermark connections remain among the eligible peers; no peer is closed while a lower-valued eligible (non-temporary, connected) peer is kept
 //verif:obligation C14.b bookkeeping steps: TagPeer / UntagPeer / UpsertTag keep a peer's value equal to the sum of its tags for every tag history step (including re-tagging to zero); Connected / Disconnected keep the connection count equal to the number of tracked connections, ignore duplicates and unknown connections, and a peer that was only tagged before gets its grace period from the moment it connects
 //verif:obligation C14.c getConnsToCloseEmergency: a protected peer's connection is selected only if every connection of every unprotected peer is selected too
-//verif:bound 3 peers (thorough 4; two of them share a segment), <= 2 connections per peer, tag values in [-2^40, 2^40], sort.Slice summarised by an insertion network over the real comparator (<= 8 elements)
+//verif:bound 3 peers (thorough 4; two of them share a segment), <= 2 connections per peer, peer values any int (the whole range: a peer pinned at MaxInt against a penalised one), tag values of the tagging operations in [-2^40, 2^40], sort.Slice summarised by an insertion network over the real comparator (<= 8 elements)
 //verif:stub network.Conn stub (RemotePeer, Stat); clock stub; sort.Slice summary of the engine; mutexes sequential
 //verif:outside concurrent trims and tagging (lock discipline), decaying tags, silence period of the background loop, memory watchdog
 package connmgr
@@ -80,7 +80,7 @@ func vC14state(cm *BasicConnMgr, n int, shardBits int) []vC14peer {
 		}
 		fs := int64(vRange(0, 1<<50))
 		inf := &peerInfo{id: vC14ids[i], tags: map[string]int{}, decaying: map[*decayingTag]*connmgr.DecayingValue{},
-			conns: map[network.Conn]time.Time{}, value: vRange(-(1 << 40), 1<<40), firstSeen: time.Unix(0, fs)}
+			conns: map[network.Conn]time.Time{}, value: vInt(), firstSeen: time.Unix(0, fs)}
 		if nconns == 0 {
 			inf.temp = vBool() // an entry without connections only exists as a temporary (early tag) entry...
 			vAssume(inf.temp)
